@@ -352,15 +352,12 @@ end Translation
 
 /-! ### the classifier's constants (extracted from the source on every run) -/
 
-/-- The metabolic-state classifier of the current source is the one the driver computes: thresholds 0.1 / 0.3 /
-    0.9, debt weight 0.5, and the chain `ratio <= STARVING → starving, <= CONSERVING → conserving, >= FEASTING →
-    feasting, else normal` (`Operon.Gen.Metabolism`, regenerated by extractor E5-metabolism).  No ledger theorem
+/-- The metabolic-state classifier of the current source is the one the driver computes: debt weight 1/2 and the chain `ratio <= 1/10 → starving, <= 3/10 → conserving, >= 9/10 → feasting, else normal`
+    — the VALUES the source's expressions evaluate to, however they are spelled (`Operon.Gen.Metabolism`, regenerated by extractor E5-metabolism).  No ledger theorem
     depends on these (they hold for every classifier); this pins the float side of the correspondence by name. -/
 theorem c04_classifier_constants_table :
-    Gen.Metabolism.starving = some (1, 10) ∧ Gen.Metabolism.conserving = some (3, 10) ∧
-    Gen.Metabolism.feasting = some (9, 10) ∧ Gen.Metabolism.debtWeight = some (1, 2) ∧
-    Gen.Metabolism.chain = [("le", "STARVING_THRESHOLD", "starving"), ("le", "CONSERVING_THRESHOLD", "conserving"),
-                            ("ge", "FEASTING_THRESHOLD", "feasting")] ∧
+    Gen.Metabolism.debtWeight = some (1, 2) ∧
+    Gen.Metabolism.chain = [("le", (1, 10), "starving"), ("le", (3, 10), "conserving"), ("ge", (9, 10), "feasting")] ∧
     Gen.Metabolism.elseState = "normal" := by decide
 
 /-! ### Non-vacuity: concrete stores and histories meeting the hypotheses -/
